@@ -32,12 +32,7 @@ def link_np(kind, h):
 
 
 def gen_case(g, kind, Dx, Dy, Dk, Da, scn, scale=Fr(1), N=1):
-    while True:
-        d = c16.gen_case(g, kind, Dx, Dy, Dk, Da=Da)
-        # parts: every noise unit loads on y (a zero column of A_k gives quadratic integral 0, whose logarithm the log
-        # domain cannot carry; the bound itself is checked for such units in the "bound" scenario)
-        if scn != "parts" or all(any(d["A"][i][k] != 0 for i in range(Dy)) for k in range(Dk)):
-            break
+    d = c16.gen_case(g, kind, Dx, Dy, Dk, Da=Da)
     d["scn"] = scn
     d["scale"] = scale
     # input weights scaled (offset kept): the homoscedastic limit is scale -> 0
@@ -148,10 +143,7 @@ def run_parts(d, c, p, ob, fails):
         os_ = np.asarray(c._get_omega_star(p_x=p, y=ys, W_i=c.W[i], a_i=a_i), dtype=float).reshape(-1)
         quad = np.asarray(c._lower_bound_integrals(p, ys, c.W[i], a_i, jnp.array(os_)), dtype=float).reshape(-1)
         k = np.asarray(c.k_func(p_x=p, W_i=c.W[i], omega_dagger=jnp.array(od)), dtype=float).reshape(-1)
-        if kind == "exp":
-            ob.add("ln quadratic_integral[%d]" % i, np.log(quad))
-        else:
-            ob.add("quadratic_integral[%d]" % i, quad)
+        ob.add("quadratic_integral[%d]" % i, quad)
         ob.add("k_func[%d]" % i, k)
         seam["os"].append(c16.fr(os_)); seam["lcs"].append(c16.fr(np.log(np.cosh(half * os_)))); seam["ths"].append(c16.fr(np.tanh(half * os_)))
         seam["od"].append(c16.fr(od)); seam["lcd"].append(c16.fr(np.log(np.cosh(half * od)))); seam["thd"].append(c16.fr(np.tanh(half * od)))
@@ -240,16 +232,19 @@ def enc(x):
 
 
 def post_model(d, ints):
-    """cosh-1 parts: quadratic_integral = exp(T+) + exp(T-) - exp(T1) leaves the log domain; the model returns the three
-    logarithms, combined here (everything else passes through unchanged)"""
-    if d.get("scn") != "parts" or d["kind"] != "coshm1":
+    """parts: a quadratic integral is mass * expectation = exp(log-mass) * rational; it leaves the log domain, so the model
+    returns (log-mass, expectation) pairs which are combined here (cosh-1: plus + minus - base); everything else passes
+    through unchanged"""
+    if d.get("scn") != "parts":
         return ints
     N, Dk, R = d["R"], d["Dk"], d["R"]
+    npair = 1 if d["kind"] == "exp" else 3
     out = []; pos = 0
     for i in range(Dk):
         for n in range(N):
-            t = gtlib.decode5(ints[pos:pos + 15]); pos += 15
-            out += enc(math.exp(gtlib.lfloat(t[0])) + math.exp(gtlib.lfloat(t[1])) - math.exp(gtlib.lfloat(t[2])))
+            t = gtlib.decode5(ints[pos:pos + 10 * npair]); pos += 10 * npair
+            v = [math.exp(gtlib.lfloat(t[2 * k])) * float(t[2 * k + 1][0]) for k in range(npair)]
+            out += enc(v[0] if npair == 1 else v[0] + v[1] - v[2])
         out += ints[pos:pos + 5 * R]; pos += 5 * R
     return out + ints[pos:]
 
@@ -269,11 +264,12 @@ def coq_parts(d):
         geo = "(hb_aM Dy Da Dk A M %d) (hb_ayb Dy Da Dk A b ys %d)" % (i, i)
         geo = geo.replace("Dy", str(Dy)).replace("Da", str(Da)).replace("Dk", str(Dk))
         if exp:
-            parts.append("dL %d (hb_exp_quad_ln p %d %d %s %s %s %s)" % (N, N, Dx, w, b0, st, geo))
+            parts.append("flatten [seq (let: (lm, mo) := hb_exp_quad p %d %d %s %s %s %s n in dumpL lm ++ dumpF mo) | n <- iota 0 %d]"
+                         % (N, Dx, w, b0, st, geo, N))
             kq = "(hb_exp_kq p %s %s %s)" % (w, b0, dg)
             parts.append("dL %d (fun r => (emb LQ (%s r) + ln2 LQ)%%R)" % (N, kq))
         else:
-            parts.append("flatten [seq (let: (tp, tm, t1) := hb_cosh_quad_ln p %d %d %s %s %s %s n in dumpL tp ++ dumpL tm ++ dumpL t1) | n <- iota 0 %d]"
+            parts.append("flatten [seq (let: (tp, tm, t1) := hb_cosh_quad p %d %d %s %s %s %s n in dumpL tp.1 ++ dumpF tp.2 ++ dumpL tm.1 ++ dumpF tm.2 ++ dumpL t1.1 ++ dumpF t1.2) | n <- iota 0 %d]"
                          % (N, Dx, w, b0, st, geo, N))
             kq = "(hb_cosh_kq p %s %s %s)" % (w, b0, dg)
             parts.append("dL %d (fun r => emb LQ (%s r))" % (N, kq))
